@@ -840,6 +840,7 @@ pub struct HandlerConfig {
     pub(crate) received_event: ReceivedEventId,
     pub(crate) received_event_access: MaybeInvalidAccess,
     pub(crate) targeted_event_component_access: ComponentAccess,
+    pub(crate) targeted_event_component_access_set: bool,
     pub(crate) sent_global_events: BitSet<GlobalEventIdx>,
     pub(crate) sent_targeted_events: BitSet<TargetedEventIdx>,
     pub(crate) event_queue_access: MaybeInvalidAccess,
@@ -894,7 +895,12 @@ impl HandlerConfig {
     /// Has no effect if the received event is untargeted. Defaults to
     /// [`ComponentAccess::new_false`].
     pub fn set_targeted_event_component_access(&mut self, component_access: ComponentAccess) {
-        self.targeted_event_component_access = component_access;
+        self.targeted_event_component_access = match self.targeted_event_component_access_set {
+            // The target must match every targeted receiver in the handler.
+            true => self.targeted_event_component_access.and(&component_access),
+            false => component_access,
+        };
+        self.targeted_event_component_access_set = true;
     }
 
     /// Inserts a global event into the set of events this handler is able to
